@@ -163,6 +163,109 @@ theorem argWs_spec (d : List Byte) :
     intro h0 hne'
     exact Or.inr (nextChar_zero_head hne' h0)
 
+theorem tokWs_not_quote {c : Byte} (h : isTokWs c = true) : isQuote c = false := by
+  unfold isTokWs at h
+  unfold isQuote
+  simp only [Bool.or_eq_true, beq_iff_eq] at h
+  rcases h with (((h | h) | h) | h) | h <;> subst h <;> decide
+
+/-- a word without quote and blank characters is scanned through -/
+theorem memtokGo_plain_end (w : List Byte) (pos : Nat) (prev : Byte)
+    (hw : ∀ c, c ∈ w → isQuote c = false ∧ isTokWs c = false) : memtokGo w pos 0 prev = none := by
+  induction w generalizing pos prev with
+  | nil => simp [memtokGo]
+  | cons a w' ih =>
+    obtain ⟨hq, ht⟩ := hw a (by simp)
+    unfold memtokGo
+    simp only [ne_eq, not_true_eq_false, if_false, hq, ht, Bool.false_eq_true]
+    exact ih (pos + 1) a (fun c hc => hw c (by simp [hc]))
+
+theorem memtokGo_plain_ws (w : List Byte) (c : Byte) (rest : List Byte) (pos : Nat) (prev : Byte)
+    (hw : ∀ c, c ∈ w → isQuote c = false ∧ isTokWs c = false) (hc : isTokWs c = true) :
+    memtokGo (w ++ c :: rest) pos 0 prev = some (pos + w.length) := by
+  induction w generalizing pos prev with
+  | nil => simp [memtokGo, hc, tokWs_not_quote hc]
+  | cons a w' ih =>
+    obtain ⟨hq, ht⟩ := hw a (by simp)
+    simp only [List.cons_append]
+    unfold memtokGo
+    simp only [ne_eq, not_true_eq_false, if_false, hq, ht, Bool.false_eq_true]
+    rw [ih (pos + 1) a (fun c hc => hw c (by simp [hc]))]
+    simp only [List.length_cons]
+    congr 1; omega
+
+theorem takeWhile_all {α} (p : α → Bool) (l : List α) : ∀ c, c ∈ l.takeWhile p → p c = true := by
+  induction l with
+  | nil => intro c hc; simp at hc
+  | cons a r ih =>
+    intro c hc
+    rw [List.takeWhile_cons] at hc
+    by_cases ha : p a = true
+    · simp only [ha, if_true, List.mem_cons] at hc
+      rcases hc with rfl | hc
+      · exact ha
+      · exact ih c hc
+    · simp [ha] at hc
+
+theorem takeWhile_self {α} (p : α → Bool) (l : List α) (h : ∀ c, c ∈ l → p c = true) : l.takeWhile p = l := by
+  induction l with
+  | nil => rfl
+  | cons a r ih =>
+    rw [List.takeWhile_cons, h a (by simp)]
+    simp only [if_true]
+    rw [ih (fun c hc => h c (by simp [hc]))]
+
+theorem take_takeWhile_length {α} (p : α → Bool) (l : List α) : l.take (l.takeWhile p).length = l.takeWhile p := by
+  induction l with
+  | nil => rfl
+  | cons a r ih =>
+    rw [List.takeWhile_cons]
+    by_cases ha : p a = true
+    · simp [ha, ih]
+    · simp [ha]
+
+/-- white-space separated arguments, plain case: the first argument is the command word -/
+theorem plain_argWs {payload : List Byte} (hp : plainWord payload = true) :
+    wsWord payload ≠ [] ∧ argWs (payload.dropWhile isSpace) = (wsWord payload).length ∧
+      (payload.dropWhile isSpace).take (wsWord payload).length = wsWord payload := by
+  unfold plainWord at hp
+  simp only [Bool.and_eq_true, Bool.not_eq_true', List.isEmpty_eq_false_iff] at hp
+  obtain ⟨⟨hne, hq⟩, hafter⟩ := hp
+  have hsplit := List.takeWhile_append_dropWhile (p := fun c => !isSpace c && c != 0) (l := payload.dropWhile isSpace)
+  have hw : ∀ c, c ∈ wsWord payload → isQuote c = false ∧ isTokWs c = false ∧ c ≠ 0 := by
+    intro c hc
+    have h1 : isQuoteCh c = false := by
+      rw [List.any_eq_false] at hq
+      simpa using hq c hc
+    have h2 := takeWhile_all _ _ c hc
+    simp only [Bool.and_eq_true, Bool.not_eq_true', bne_iff_ne, ne_eq] at h2
+    refine ⟨h1, ?_, h2.2⟩
+    cases ht : isTokWs c with
+    | false => rfl
+    | true => rw [tokWs_space ht] at h2; cases h2.1
+  refine ⟨hne, ?_, ?_⟩
+  · unfold argWs memtok
+    have hw' : ∀ c, c ∈ wsWord payload → isQuote c = false ∧ isTokWs c = false := fun c hc => ⟨(hw c hc).1, (hw c hc).2.1⟩
+    unfold wsWord at hw hw' hne ⊢
+    generalize List.dropWhile (fun c => !isSpace c && c != 0) (List.dropWhile isSpace payload) = after at hafter hsplit
+    generalize List.takeWhile (fun c => !isSpace c && c != 0) (List.dropWhile isSpace payload) = w at hw hw' hne hsplit ⊢
+    rw [← hsplit]
+    cases after with
+    | nil =>
+      rw [List.append_nil, memtokGo_plain_end w 0 0x20 hw']
+      simp only
+      rw [nextChar_len, takeWhile_self]
+      intro c hc
+      have := (hw c hc).2.2
+      simpa using this
+    | cons c rest =>
+      simp only at hafter
+      have hc : isTokWs c = true := hafter
+      rw [memtokGo_plain_ws w c rest 0 0x20 hw' hc]
+      simp
+  · unfold wsWord
+    exact take_takeWhile_length _ _
+
 theorem hashId_cmdIds (msg : List Byte) :
     (∃ v, hashId msg = .id v ∧ some v ∈ cmdIds msg) ∨ (hashId msg = .fail ∧ none ∈ cmdIds msg) := by
   unfold hashId cmdIds
@@ -174,7 +277,7 @@ theorem hashId_cmdIds (msg : List Byte) :
     generalize (if ty = msgCommand then arg else 0) = sep
     unfold messageArgv
     by_cases hemp : payload = []
-    · subst hemp; right; simp [prefixes]
+    · subst hemp; right; simp [prefixes, plainWord, wsWord]
     · have hne : payload.isEmpty = false := by simpa using hemp
       simp only [hne, Bool.false_eq_true, if_false]
       by_cases hs0 : sep = 0
@@ -241,7 +344,33 @@ theorem hashId_cmdIds (msg : List Byte) :
         · -- white-space separated arguments with quoting
           have hgr' : isGraph sep = false := by simpa using hgr
           simp only [hgr', Bool.false_eq_true, if_false]
-          cases hf : payload.findIdx? (fun c => !isSpace c) with
+          by_cases hp : plainWord payload = true
+          · -- plain command word: exactly one reading
+            obtain ⟨hne, hlen, htake⟩ := plain_argWs hp
+            simp only [hp, if_true]
+            have hl0 : (wsWord payload).length ≠ 0 := by
+              intro h0; exact hne (List.eq_nil_of_length_eq_zero h0)
+            cases hf : payload.findIdx? (fun c => !isSpace c) with
+            | none =>
+              exfalso
+              rw [List.findIdx?_eq_none_iff] at hf
+              have hall : ∀ x, x ∈ payload → isSpace x = true := by
+                intro x hx; have := hf x hx; simpa using this
+              apply hne
+              unfold wsWord
+              rw [dropWhile_all isSpace payload hall]; rfl
+            | some p =>
+              simp only
+              have hdw : payload.drop p = payload.dropWhile isSpace := by
+                have := drop_findIdx_some (fun c => !isSpace c) payload hf
+                simpa using this
+              rw [hdw, hlen]
+              left
+              simp only [hl0, if_false]
+              refine ⟨_, rfl, ?_⟩
+              rw [htake, mptHash_eq]; simp
+          · simp only [hp, Bool.false_eq_true, if_false]
+            cases hf : payload.findIdx? (fun c => !isSpace c) with
           | none =>
             simp only
             rw [List.findIdx?_eq_none_iff] at hf
